@@ -20,6 +20,7 @@ type AggItem struct {
 
 type C03Case struct {
 	Doc       map[string]any    `json:"doc"`
+	Limit     int               `json:"limit,omitempty"`    // LIMIT n (n >= 1) on the aggregate query; 0 = none
 	GoTypes   map[string]string `json:"go_types,omitempty"` // numeric columns handed over as native Go values of that type
 	Shape     string            `json:"shape"`              // group | whole | groupagg
 	GroupCols []string          `json:"group_cols,omitempty"`
@@ -38,7 +39,7 @@ func init() {
 		Rule: "rapid draws a table with 1-3 low-cardinality grouping columns (string / number / NULL or missing keys) and 2-3 numeric value " +
 			"columns (some nullable), 0-10 rows, and a query of shape group (GROUP BY with keys, 1-5 aggregates incl. the same function on " +
 			"different columns, optional *, WHERE, HAVING), whole (all-aggregate list without GROUP BY, with/without WHERE, incl. empty input) or " +
-			"groupagg (all-aggregate list with GROUP BY); oracle = reference grouping in first-appearance order (sequence equality), three " +
+			"groupagg (all-aggregate list with GROUP BY), a quarter of them with a trailing LIMIT n >= 1 (which only trims the output sequence); oracle = reference grouping in first-appearance order (sequence equality), three " +
 			"executions must agree, conservation law sum(COUNT(*)) = |rows passing WHERE|, groups pairwise distinct. Non-trivial: >=2 groups " +
 			"with one of size >=2, or whole-table with WHERE rejecting >=1 row, or two calls of one aggregate function.",
 		Assumptions: []string{
@@ -174,6 +175,9 @@ func genC03(t *rapid.T) any {
 			c.Having = genHaving(t, &sch, c.GroupCols, rapid.IntRange(0, 2).Draw(t, "hdepth"), "h")
 		}
 	}
+	if rapid.IntRange(0, 3).Draw(t, "haslimit") == 0 {
+		c.Limit = rapid.IntRange(1, 4).Draw(t, "limit")
+	}
 	c.SQL = renderC03(c)
 	return c
 }
@@ -242,6 +246,9 @@ func renderC03(c *C03Case) string {
 	}
 	if c.Having != nil {
 		s += " HAVING " + sq.Render(c.Having, nil)
+	}
+	if c.Limit > 0 {
+		s += fmt.Sprintf(" LIMIT %d", c.Limit)
 	}
 	return s
 }
@@ -395,6 +402,13 @@ func checkC03(c *C03Case) Result {
 	if err != nil {
 		discardOrHarness(&res, err)
 		return res
+	}
+	if c.Limit > 0 {
+		// the aggregates range over all qualifying rows; LIMIT only trims the sequence of output rows
+		if len(want) > c.Limit {
+			want = want[:c.Limit]
+		}
+		res.Labels = append(res.Labels, "limit")
 	}
 	rows, _ := c.Doc["t"].([]any)
 	res.Labels = append(res.Labels, "shape:"+c.Shape)
